@@ -256,6 +256,73 @@ def _vector(keys, n, kind='wavelength'):
     return h
 
 
+def _vector_edep(segs, kind='wavelength'):
+    """vector call == scalar calls when an atom carries an energy table (3 symbolic nodes at 1, 2, 4 A);
+    one wavelength per listed segment, so vectors mixing in-table and beyond-the-table values are covered"""
+    def h(E):
+        from periodictable import nsf, formulas
+        from .. import sym
+        T, atoms, data, counts = _mk(E, ('X', 'Y'), 'c04e')
+        X = atoms[0]
+        vals = []
+        for i in range(3):
+            re = E.real('tab_re%d' % i, lo=-20, hi=20)
+            im = E.real('tab_im%d' % i, lo=-5, hi=0)
+            vals.append(sym.SymComplex(re, im) if E.symbolic else complex(re, im))
+        X.neutron.nsf_table = (np.array([1.0, 2.0, 4.0]), np.array(vals, dtype=object if E.symbolic else complex))
+        try:
+            f = formulas.formula(list(zip(counts, atoms)))
+            rho = E.real('rho', lo=0, lo_open=True, hi=25)
+            lams = [E.real('lam%d' % i, lo=lo, hi=hi) for i, (lo, hi) in enumerate(segs)]
+            n = len(lams)
+            if kind == 'energy':
+                ens = [nsf.ENERGY_FACTOR / (l * l) for l in lams]
+                r = nsf.neutron_scattering(f, density=rho, energy=np.array(ens, dtype=object if E.symbolic else float))
+            else:
+                r = nsf.neutron_scattering(f, density=rho, wavelength=np.array(lams, dtype=object if E.symbolic else float))
+            out = flat(r)
+            for i, l in enumerate(lams):
+                s = flat(nsf.neutron_scattering(f, density=rho, wavelength=l))
+                for name, o, sv in zip(NAMES, out, s):
+                    if isinstance(o, np.ndarray) and o.shape == (n,):
+                        E.eq('vector_edep[%d].%s' % (i, name), o[i], sv)
+                    else:
+                        E.fact('vector_edep_shape.' + name, False, note=repr(getattr(o, 'shape', None)))
+        finally:
+            X.neutron.nsf_table = None
+    return h
+
+
+def _vector_real_case(case, tier, seed):
+    """ground (concrete; not a solver claim): vector call == scalar calls for every energy-dependent nuclide of the public
+    table and a few ordinary ones, with vectors that mix wavelengths inside, below and beyond the tabulated range"""
+    import periodictable as pt
+    from periodictable import nsf, formulas, nsf_tables
+    res = dict(paths=1, claims=0, discharged=0, queries=0, distinct=0, violations=[], inconclusive=[], samples=[], solver_s=0.0, complete=True)
+    pt.H.neutron
+    atoms = [getattr(pt, el) if iso is None else getattr(pt, el)[iso] for (el, iso) in nsf_tables.ENERGY_DEPENDENT_TABLES] + [pt.Fe, pt.H[1], pt.B[10]]
+    vectors = ([0.31, 1.0, 1.798, 4.75, 12.0], [12.0, 0.5], [0.05, 30.0, 2.0], [1.0], [20.0, 25.0])
+    for atom in atoms:
+        f = formulas.formula([(2, atom), (3, pt.O)], density=5.0)
+        for vec in vectors:
+            for kind in ('wavelength', 'energy'):
+                arg = np.array(vec) if kind == 'wavelength' else nsf.neutron_energy(np.array(vec))
+                out = flat(nsf.neutron_scattering(f, **{kind: arg}))
+                for i, l in enumerate(vec):
+                    s = flat(nsf.neutron_scattering(f, wavelength=l))
+                    for name, o, sv in zip(NAMES, out, s):
+                        res['claims'] += 1
+                        ok = isinstance(o, np.ndarray) and o.shape == (len(vec),) and abs(o[i] - sv) <= 1e-9 * max(abs(sv), 1e-30)
+                        if ok:
+                            res['discharged'] += 1
+                        elif len(res['violations']) < 5:
+                            res['violations'].append(dict(case=case.name, claim='vector_entry_equals_scalar[%s|%s].%s' % (atom, kind, name),
+                                                          values={'wavelengths': vec, 'index': i}, observed=[repr(o)[:80], repr(sv)], how='concrete'))
+    res['queries'] = res['distinct'] = res['claims']
+    res['samples'] = [dict(materials=len(atoms), vectors=vectors)]
+    return res
+
+
 def _nonneg(keys):
     def h(E):
         from periodictable import nsf, formulas
@@ -305,6 +372,12 @@ def cases(tier):
     if th:
         vec += [(('X', 'Y'), 3, 'wavelength'), (('Xi', 'D', 'Yq'), 2, 'wavelength'), (('X', 'Y'), 3, 'energy'), (('X',), 4, 'wavelength'),
                 (('Xi', 'D', 'Yq'), 3, 'list'), (('Xiq', 'H1'), 2, 'energy')]
+    out.append(Case('count_scaling[X alone]', _count_scaling(('X',)), max_paths=mp, timeout_ms=to, portfolio=th))
+    out.append(Case('count_scaling[Xiq alone]', _count_scaling(('Xiq',)), max_paths=mp, timeout_ms=to, portfolio=th))
+    out.append(Case('vector_vs_scalar_real_tables_ground', None, custom=_vector_real_case))
+    if th:
+        out.append(Case('vector_edep[in+beyond]', _vector_edep([(1.0, 2.0), (4.0, 50.0)]), max_paths=mp * 4, timeout_ms=to, portfolio=th, validate=False,
+                        budget_s=1500, expect_incomplete=True))
     for ks, n, kind in vec:
         out.append(Case('vector[%s|n=%d|%s]' % ('+'.join(ks), n, kind), _vector(ks, n, kind), max_paths=mp * 4,
                         timeout_ms=to, portfolio=th))
